@@ -218,6 +218,34 @@ CLAIMED = {
         note=TRUST + "The logos attributes are read from the source text of enum Token (rustc drops derive-helper attributes); assumes "
              "the generated lexer implements them.",
         design="3/C17"),
+    "C13": dict(
+        technique="forward expression propagation along every acyclic path of the reader's and writer's primitives (field-sensitive symbolic store over self), then state-update pairing rules, linear forms of shift amounts, struct-literal rules, and a one-variable mask formula checked for each of its 8 counter values",
+        text="Decides structural clauses of the two bit-level state machines only, NOT the numeric round trip: every single-bit selector of "
+             "BitIter::next, BitWriter::write_bit, io::Write::write and write_bits_be is most-significant-bit first as a linear form of the "
+             "machine's own counter; the per-byte counter and the total counter move together, the cache is used only under counter < 8, a "
+             "refill stores the next byte and zeroes the counter; wherever the writer hands its cache byte to the underlying writer (spill in "
+             "write_bit, flush_all) both cache and counter are zero afterwards; every BitIter/BitWriter literal starts the total at 0 and pairs "
+             "the counter with the cache it describes; close() returns Ok only with the byte iterator exhausted and exactly the unread bits of "
+             "the cached byte tested for zero (mask formula read off the MIR, all 8 counter values); read_u8 splices old cache << counter with "
+             "the new byte >> (8 - counter) and advances the total by 8; byte_slice_window slices start/8 .. ceil(end/8); encoder and decoder "
+             "of naturals agree on the frame (1 per level, closing 0, suffixes innermost first as (value, length), accumulator from the implicit "
+             "leading 1, bits appended at the low end). The guards of read_natural are decided under C02.bound. Magnitudes, truncation of "
+             "numbers >= 2^32 in the encoder and the recursion of the length prefix are not decided.",
+        note=TRUST + "Assumes std's Range, Vec::pop and io::Write::write_all.",
+        design="3/C13"),
+    "C18": dict(
+        technique="per-trip analysis of PostOrderIter::next: forward expression propagation along every path of the loop body up to its back edge or return (field-sensitive symbolic store), decision rules over pushes, index fields and back-patch tags; sibling comparison of SharingTracker impls; shape rules for the child-swapping adaptor; access discipline of Node::convert",
+        text="Decides necessary conditions visible on one trip through the iterator's loop and in its siblings, NOT the loop invariant over "
+             "all DAG shapes: on a first visit the popped item is pushed back first, an already seen child gives its recorded index to the field "
+             "of its own side, a new child is pushed exactly once with the tag whose back-patching arm (read off the second-visit code: stack "
+             "slot and field) is its own side at the distance it will have from its parent, and of two new children the left is pushed last; on "
+             "a second visit the index yielded, recorded and patched into the parent are one value, the counter advances exactly on the yielding "
+             "path, and the item carries the popped element's own child indices; every map-based SharingTracker::record keeps the first index, "
+             "stores the index given and shares its key derivation with seen_before, forwarders pass (object, index) on; SwapChildren exchanges "
+             "exactly binary children, unswap exchanges the indices exactly for binary nodes, rtl_post_order_iter composes the two; Node::convert "
+             "looks children up by the reported left/right indices only. Pre-order iterators and is_shared_as are not decided.",
+        note=TRUST + "The per-trip rules are necessary conditions; that they suffice needs the stack invariant, which is not proved.",
+        design="3/C18"),
     "C19": dict(
         technique="formula extraction from MIR (terms, guard polarity, the `match deficit` as a piecewise table of intervals and affine expressions via path enumeration with interval constraints) and comparison with the formulas the property states; interval-exhaustive check of the extracted table against the CompactSize rule",
         text="Decides that the arithmetic written in src/analysis.rs is the arithmetic the property states, for every value of its "
@@ -247,8 +275,6 @@ CLAIMED = {
 
 NOT_APPLICABLE = {
     "C06": "agreement of two interpreters' runtime verdicts over all programs/witnesses/environments: no structural clause beyond those decided under C05/C14",
-    "C13": "exact coding of naturals/bit streams is numeric round-trip equality; only its guard clauses are structural and those are decided under C02",
-    "C18": "index bookkeeping of PostOrderIter over all DAG shapes is an algorithmic invariant of a stateful loop; a static proxy would be a frozen fragment",
 }
 
 PENDING = "check under construction in this round (see DESIGN.md section 9); not yet claimed"
